@@ -28,6 +28,9 @@ pub struct StreamCase {
     pub shape: u8,
     pub n_peers: u8,
     pub sched: Vec<u16>,
+    /// 1 = another fold over $s runs at F before the visiting fold (it leaves an empty generation behind: F19)
+    #[serde(default)]
+    pub prefold: u8,
 }
 
 pub fn stream_case_strategy() -> BoxedStrategy<StreamCase> {
@@ -39,8 +42,9 @@ pub fn stream_case_strategy() -> BoxedStrategy<StreamCase> {
         0u8..4,
         4u8..=5,
         proptest::collection::vec(any::<u16>(), 0..40),
+        0u8..3,
     )
-        .prop_map(|(appends, late, roles, recursive, shape, n_peers, sched)| StreamCase { appends, late, roles, recursive: recursive % 3, shape: (shape == 0) as u8, n_peers, sched })
+        .prop_map(|(appends, late, roles, recursive, shape, n_peers, sched, prefold)| StreamCase { appends, late, roles, recursive: recursive % 3, shape: (shape == 0) as u8, n_peers, sched, prefold: (prefold == 0) as u8 })
         .boxed()
 }
 
@@ -118,6 +122,13 @@ pub fn build(case: &StreamCase) -> Scenario {
     let fold_body = if case.shape == 1 { I::par(body, I::Next("i".into())) } else { I::seq(body, I::Next("i".into())) };
     let fold = I::Fold { iterable: Arg::var("$s"), iter: "i".into(), body: Box::new(fold_body), last: Some(Box::new(I::Null)) };
     let local = I::seq(I::Canon { peer: Arg::Str(peers[f].id.clone()), src: "$s".into(), dst: "#loc".into() }, lit_call(&peers[f].id, "probe", "ploc", vec![Arg::var("#loc")], None));
+    services.insert("pv".into(), Ret::Str);
+    let fold = if case.prefold == 1 {
+        let pre = I::Fold { iterable: Arg::var("$s"), iter: "j".into(), body: Box::new(I::par(lit_call(&peers[f].id, "pre", "pv", vec![Arg::var("j")], None), I::Next("j".into()))), last: Some(Box::new(I::Null)) };
+        I::seq(pre, fold)
+    } else {
+        fold
+    };
     let instr = I::seq_all(vec![appends.unwrap_or(I::Null), canon, after_canon, fold, local]);
     let text = print(&instr);
     Scenario { script: Script { instr, text, peers, services, feat: Default::default() }, designated: d, folder: f, probes: (q1, q2) }
@@ -329,7 +340,7 @@ impl Property for C13 {
         "C13"
     }
     fn rule(&self) -> String {
-        "the same scenario scripts: appends from several peers, `(fold $s i (par|seq BODY (next i)))` at peer F, then a local `(canon F $s #loc)` with a probe. BODY is `(call F (\"visit\" \"v\") [i])`, in two thirds of the cases followed by a recursive append `(xor (match i.$.n 0 (call T (\"app\" \"rec\") [i] $s)) (null))` whose result depends on its trigger and recurses 2-3 levels deep; T is F itself (mode 1) or the peer named by the element, `i.$.p` (mode 2: recursion levels produced on several peers and merged back). Oracles: (1) F never visits a value twice (no two visit requests with the same argument); (2) with the par-next shape, once everything is delivered the visited values are exactly the stream values in F's final data (including late and recursive appends), each once; (3) the local canon holds exactly the stream values F's data held before the canon entry in the run that produced it (as multisets: nothing duplicated or lost by merging), and the probe receives them. Non-trivial = F received the stream values in >= 2 deliveries and visited >= 3 values; distinct by (script, schedule) hash".into()
+        "the same scenario scripts: appends from several peers, `(fold $s i (par|seq BODY (next i)))` at peer F (in a third of the cases preceded by another par-next fold over $s at F), then a local `(canon F $s #loc)` with a probe. BODY is `(call F (\"visit\" \"v\") [i])`, in two thirds of the cases followed by a recursive append `(xor (match i.$.n 0 (call T (\"app\" \"rec\") [i] $s)) (null))` whose result depends on its trigger and recurses 2-3 levels deep; T is F itself (mode 1) or the peer named by the element, `i.$.p` (mode 2: recursion levels produced on several peers and merged back). Oracles: (1) F never visits a value twice (no two visit requests with the same argument); (2) with the par-next shape, once everything is delivered the visited values are exactly the stream values in F's final data (including late and recursive appends), each once; (3) the local canon holds exactly the stream values F's data held before the canon entry in the run that produced it (as multisets: nothing duplicated or lost by merging), and the probe receives them. Non-trivial = F received the stream values in >= 2 deliveries and visited >= 3 values; distinct by (script, schedule) hash".into()
     }
     fn assumptions(&self) -> Vec<String> {
         vec!["values are unique by construction (one service function per append; the recursive append is a hash of its trigger and level)".into(), "the seq-next shape may legitimately stop at a pending visit: completeness (2) is asserted for the par-next shape only".into()]
@@ -344,7 +355,7 @@ impl Property for C13 {
         stream_case_strategy()
     }
     fn required_classes(&self) -> Vec<&'static str> {
-        vec!["visits_complete_checked", "recursive_append_visited", "local_canon_checked", "folder_got_values_in_2_deliveries", "late_append_visited"]
+        vec!["visits_complete_checked", "recursive_append_visited", "recursive_append_visited_after_an_earlier_fold", "local_canon_checked", "folder_got_values_in_2_deliveries", "late_append_visited"]
     }
     fn check(&self, case: &StreamCase, _tier: Tier) -> CaseResult {
         let (sc, log, peers, quiescent) = run_scenario(case);
@@ -374,6 +385,9 @@ impl Property for C13 {
         }
         if visited.iter().any(|v| v["a"].as_str().map(|s| s.starts_with("rec:")).unwrap_or(false)) {
             rep.classes.push("recursive_append_visited".into());
+            if case.prefold == 1 {
+                rep.classes.push("recursive_append_visited_after_an_earlier_fold".into());
+            }
         }
         if visited.iter().any(|v| v["a"].as_str().map(|s| s.starts_with("late")).unwrap_or(false)) {
             rep.classes.push("late_append_visited".into());
